@@ -81,7 +81,7 @@ Theorem bind_unique_step blk ops o sd :
      (s_addr sj = None /\ exists a, s_addr sj' = Some a /\ 2 <= a < 64 /\ bound_set c a = [])).
 Proof.
   intros c c' j sj G. unfold c'. rewrite exec_app.
-  destruct (step_addr (exec blk ops) o sd (exec_wf2 blk ops) j sj G) as (sj' & G' & H).
+  destruct (step_addr (exec blk ops) o sd (exec_wf2 blk ops) j sj G) as (sj' & G' & _ & H).
   exists sj'. split; auto. destruct H as [H|(N & a & A & F)]; auto. right. split; auto. exists a. split; auto.
   assert (W' : wf (get_side (fst (step (exec blk ops) o)) sd)) by (apply wf2_side, step_wf2, exec_wf2).
   pose proof (wf_addr_range _ W' j sj' a G' A) as R. split; auto.
